@@ -32,4 +32,5 @@ MUTANTS = [
     {'id': 'c13-collate-reversed', 'prop': 'C13', 'rule': 'R8', 'edits': [{'file': 'samplers.py', 'old': '        final_states_stack.append(final_state)\n', 'new': '        final_states_stack.insert(0, final_state)\n'}], 'key': 'final-state'},
     {'id': 'c13-stats-row-one-behind', 'prop': 'C13', 'rule': 'R8', 'edits': [{'file': 'samplers.py', 'old': '                        _update_chain_stats(\n                            sample_index + sampling_index_offset,', 'new': '                        _update_chain_stats(\n                            max(sample_index + sampling_index_offset - 1, 0),'}], 'key': 'stats-row'},
     {'id': 'c13-twin-sequential-index-loop', 'prop': 'C13', 'rule': None, 'edits': [{'file': 'samplers.py', 'old': '    for chain_index, (chain_iterator, chain_kwargs) in enumerate(\n        zip(chain_iterators, per_chain_kwargs, strict=True),\n    ):', 'new': '    pairs = list(zip(chain_iterators, per_chain_kwargs, strict=True))\n    for chain_index in range(len(pairs)):\n        chain_iterator, chain_kwargs = pairs[chain_index]'}], 'twin': True},
+    {'id': 'c13-n-step-counts-attempted', 'prop': 'C13', 'rule': 'R9', 'edits': [{'file': 'transitions.py', 'old': '            stats["n_step"] = _s\n', 'new': '            stats["n_step"] = _s + 1\n'}], 'key': 'n_step'},
 ]
